@@ -4,7 +4,7 @@ seedfacts.py) and print which properties report a violation. Fast development lo
 import sys, os, glob, json, subprocess, concurrent.futures as cf
 ROOT = os.path.dirname(os.path.dirname(os.path.abspath(__file__)))
 seeds = sys.argv[1:] or ["base"] + sorted(os.path.basename(os.path.dirname(p)) for p in glob.glob(os.path.join(ROOT, "seeded", "*", "patch.diff")) + glob.glob(os.path.join(ROOT, "selftest", "*", "patch.diff")) + glob.glob(os.path.join(ROOT, "benign", "*", "patch.diff")))
-ALL = [f"C{i:02d}" for i in range(1, 21)]
+ALL = os.environ.get("SM_PROPS", "").split(",") if os.environ.get("SM_PROPS") else [f"C{i:02d}" for i in range(1, 21)]      # SM_PROPS: only these checks (e.g. the ones with an abstract-interpretation part)
 def one(args):
     s, c = args
     env = dict(os.environ, VERIF_EVIDENCE_DIR=f"/tmp/seedmatrix-ev/{s}", VERIF_FACTS_DIR_OVERRIDE=os.path.join(ROOT, ".cache", "seedfacts", s))
@@ -15,6 +15,8 @@ res = {}
 with cf.ThreadPoolExecutor(16) as ex:
     for s, c, rc, lines in ex.map(one, [(s, c) for s in seeds for c in ALL]):
         res.setdefault(s, {})[c] = (rc, lines)
+if os.environ.get("SM_JSON"):
+    json.dump({s: {c: [res[s][c][0], res[s][c][1]] for c in ALL} for s in seeds}, open(os.environ["SM_JSON"], "w"))
 for s in seeds:
     hit = [c for c in ALL if res[s][c][0] == 1]
     odd = [c for c in ALL if res[s][c][0] not in (0, 1)]
